@@ -242,18 +242,4 @@ def answer (fix : Bool) (f : File) (unc : Codec) (m : MR) (b o : Nat) (ns : List
     let r := answerReads fix f unc s.2 ns
     { seekSt := 0, reads := r.1, endPos := r.2 }
 
-
-/-- The cursor movements of `sqfs_xattr_reader_read_value` for an out-of-line value
-(`lib/sqfs/src/xattr/xattr_reader.c`, `read_value_hdr` + tail of `read_value`) on the key/value reader:
-`get_position` → `seek` to the referenced value → read it (`n` bytes: header and payload) → `seek` back.
-Result: status, the bytes read at the detour, the reader afterwards. -/
-def oolDetour (fix : Bool) (f : File) (unc : Codec) (m : MR) (b o n : Nat) : Status × Bytes × MR :=
-  let p := getPos m
-  let s := seek fix f unc m b o
-  if s.1 ≠ 0 then (s.1, [], s.2) else
-  let r := read fix f unc s.2 n
-  if r.1 ≠ 0 then (r.1, [], r.2.2) else
-  let s2 := seek fix f unc r.2.2 p.1 p.2
-  (s2.1, r.2.1, s2.2)
-
 end Sqfs.MetaReader
